@@ -456,6 +456,10 @@ func (s *ServerSession) doCreateStream(tid int, stream *Stream) error {
 }
 
 func (s *ServerSession) doPublish(tid int, stream *Stream) (err error) {
+	if s.sessionStat.BaseType() != base.SessionBaseTypePubSubStr {
+		// 一个连接只允许publish或play一次，重复的信令会重复设置连接属性以及重复加入group
+		return nazaerrors.Wrap(base.ErrRtmpUnexpectedMsg)
+	}
 	if err = stream.msg.readNull(); err != nil {
 		return err
 	}
@@ -497,6 +501,10 @@ func (s *ServerSession) doPublish(tid int, stream *Stream) (err error) {
 }
 
 func (s *ServerSession) doPlay(tid int, stream *Stream) (err error) {
+	if s.sessionStat.BaseType() != base.SessionBaseTypePubSubStr {
+		// 一个连接只允许publish或play一次，重复的信令会重复设置连接属性以及重复加入group
+		return nazaerrors.Wrap(base.ErrRtmpUnexpectedMsg)
+	}
 	if err = stream.msg.readNull(); err != nil {
 		return err
 	}
